@@ -9,172 +9,90 @@
   * the `forIn` loops of `findMatch` / `findBestMatch` establish `LoopOK`.
   The statements that mention `Step` are in `Properties/C01.lean`.
 -/
-import Ctrmml.Proofs.OptScan
-import Ctrmml.Model.Optimizer
+import Ctrmml.Proofs.OptFml
 namespace Ctrmml.OptSteps
 open Ctrmml Ctrmml.Tree Ctrmml.Expand Ctrmml.Rewrite Ctrmml.Opt Tables
 
-/-! ## `sameEvent` -/
+/-! ## the loop branch of `apply_match` -/
 
-/-- a `LOOP_BREAK` event carries no duration (true of every event the MML front end and the
-optimiser create; `sameEvent` ignores the on/off time of a `LOOP_BREAK` as well as its param) -/
-def BrkZero (l : List Event) : Prop := ∀ e ∈ l, e.type = ev_LOOP_BREAK → e.on = 0 ∧ e.off = 0
+def lsEv : Event := { type := ev_LOOP_START, param := 0, on := 0, off := 0 }
+def lbEv : Event := { type := ev_LOOP_BREAK, param := 0, on := 0, off := 0 }
+def leEv (n : Int) : Event := { type := ev_LOOP_END, param := n, on := 0, off := 0 }
 
-theorem sameEvent_type {a b : Event} (h : sameEvent a b = true) : a.type = b.type := by
-  unfold sameEvent at h
-  simp only [Bool.or_eq_true, Bool.and_eq_true, beq_iff_eq] at h
-  rcases h with h | h
-  · exact h.1.1.1
-  · exact h.1
+/-- the track `apply_match` writes in its loop branch -/
+def foldedTrack (src : List Event) (p q L : Nat) : List Event :=
+  let length := q - p
+  let repeats0 := L / length + 1
+  let breakPoint := L % length
+  let repeats := if breakPoint ≠ 0 then repeats0 + 1 else repeats0
+  let evs := src.take q ++ src.drop (q + L)
+  let evs := ins evs (p + length) (leEv (wrap16 repeats))
+  let evs := if breakPoint ≠ 0 then ins evs (p + breakPoint) lbEv else evs
+  ins evs p lsEv
 
-theorem sameEvent_norm {a b : Event} (h : sameEvent a b = true)
-    (ha : a.type = ev_LOOP_BREAK → a.on = 0 ∧ a.off = 0) (hb : b.type = ev_LOOP_BREAK → b.on = 0 ∧ b.off = 0) :
-    normE a = normE b := by
-  unfold sameEvent at h
-  simp only [Bool.or_eq_true, Bool.and_eq_true, beq_iff_eq] at h
-  rcases h with h | h
-  · obtain ⟨⟨⟨h1, h2⟩, h3⟩, h4⟩ := h
-    have : a = b := by cases a; cases b; simp_all
-    rw [this]
-  · obtain ⟨h1, h2⟩ := h
-    have h3 : b.type = ev_LOOP_BREAK := h1 ▸ h2
-    obtain ⟨a1, a2⟩ := ha h2
-    obtain ⟨b1, b2⟩ := hb h3
-    unfold normE
-    simp only [h2, h3, if_true]
-    cases a; cases b; simp_all
-
-/-! ## `find_match_length` -/
-
-/-- what `find_match_length` guarantees about the two tracks -/
-structure FMLSpec (src dst : List Event) (srcStart dstStart len loopLen : Nat) : Prop where
-  /-- the matched events are pairwise `sameEvent`; no `SEGNO`, no `DRUM_MODE` among them -/
-  same : ∀ i, i < len → ∃ s d, src[srcStart + i]? = some s ∧ dst[dstStart + i]? = some d ∧
-    sameEvent s d = true ∧ d.type ≠ ev_SEGNO ∧ d.type ≠ ev_DRUM_MODE
-  /-- the matched segment of `dst` ends at a depth-0 boundary and never meets a depth-0
-  `LOOP_END`/`LOOP_BREAK` -/
-  bal : scan ((dst.drop dstStart).take len) 0 = some 0
-  le : loopLen ≤ len
-  /-- so does its prefix of length `loopLen` -/
-  lbal : scan ((dst.drop dstStart).take loopLen) 0 = some 0
-
-theorem take_succ_of_get {l : List Event} {a j : Nat} {d : Event} (h : l[a + j]? = some d) :
-    (l.drop a).take (j + 1) = (l.drop a).take j ++ [d] := by
-  rw [List.take_add_one, List.getElem?_drop, h]
+theorem applyMatch_loop_eq {song : Song} {m : SAMap} {bm : Match} {subId : Int} {src : List Event}
+    (hsrc : song.track? bm.trackId = some src) (hbr : ¬ bm.loopScore < bm.subScore) :
+    applyMatch song m bm subId =
+      .ok (setTrack song bm.trackId (foldedTrack src bm.position bm.loopPosition bm.loopLength), m, subId) := by
+  unfold applyMatch
+  simp only [hsrc, hbr, if_false]
   rfl
 
-theorem go_spec (src dst : List Event) (sa : SA) (srcStart dstStart : Nat) :
-    ∀ (fuel se de : Nat) (depth : Int) (safe : Nat) (track : Bool) (loopLen : Nat) (j s dn : Nat),
-    se = srcStart + j → de = dstStart + j → safe = dstStart + s → s ≤ j → depth = (dn : Int) →
-    (∀ i, i < j → ∃ x y, src[srcStart + i]? = some x ∧ dst[dstStart + i]? = some y ∧
-      sameEvent x y = true ∧ y.type ≠ ev_SEGNO ∧ y.type ≠ ev_DRUM_MODE) →
-    scan ((dst.drop dstStart).take j) 0 = some dn →
-    scan ((dst.drop dstStart).take s) 0 = some 0 →
-    loopLen ≤ s → scan ((dst.drop dstStart).take loopLen) 0 = some 0 →
-    ∀ r, findMatchLength.go dstStart src dst sa fuel se de depth safe track loopLen = .ok r →
-      FMLSpec src dst srcStart dstStart r.1 r.2 := by
-  intro fuel
-  induction fuel with
-  | zero =>
-    intro se de depth safe track loopLen j s dn hse hde hsafe hsj hdep hsame hscan hsafe0 hll hlscan r hr
-    simp only [findMatchLength.go, Except.ok.injEq] at hr
-    subst hr
-    have : safe - dstStart = s := by omega
-    simp only [this]
-    exact ⟨fun i hi => hsame i (by omega), hsafe0, hll, hlscan⟩
-  | succ fuel ih =>
-    intro se de depth safe track loopLen j s dn hse hde hsafe hsj hdep hsame hscan hsafe0 hll hlscan r hr
-    have hstop : ∀ r, (Except.ok (safe - dstStart, loopLen) : Except OErr (Nat × Nat)) = .ok r →
-        FMLSpec src dst srcStart dstStart r.1 r.2 := by
-      intro r hr
-      simp only [Except.ok.injEq] at hr
-      subst hr
-      have : safe - dstStart = s := by omega
-      simp only [this]
-      exact ⟨fun i hi => hsame i (by omega), hsafe0, hll, hlscan⟩
-    unfold findMatchLength.go at hr
-    split at hr
-    · rename_i x y hx hy
-      split at hr
-      · simp at hr
-      · rename_i u hu
-        simp only at hr
-        split at hr
-        · exact hstop r hr
-        split at hr
-        · exact hstop r hr
-        split at hr
-        · exact hstop r hr
-        rename_i hns hnb
-        split at hr
-        · rename_i hse'
-          -- the event is accepted
-          have hsame' : ∀ i, i < j + 1 → ∃ x y, src[srcStart + i]? = some x ∧ dst[dstStart + i]? = some y ∧
-              sameEvent x y = true ∧ y.type ≠ ev_SEGNO ∧ y.type ≠ ev_DRUM_MODE := by
-            intro i hi
-            by_cases hij : i < j
-            · exact hsame i hij
-            · have : i = j := by omega
-              subst this
-              exact ⟨x, y, by rw [← hse]; exact hx, by rw [← hde]; exact hy, hse',
-                fun h => hns (Or.inl h), fun h => hns (Or.inr h)⟩
-          have hyj : dst[dstStart + j]? = some y := by rw [← hde]; exact hy
-          -- the new depth
-          obtain ⟨dn', hdn', hscan'⟩ : ∃ dn' : Nat,
-              (if y.type = ev_LOOP_START then depth + 1 else if y.type = ev_LOOP_END then depth - 1 else depth)
-                = (dn' : Int) ∧ scan ((dst.drop dstStart).take (j + 1)) 0 = some dn' := by
-            rw [take_succ_of_get hyj, scan_append, hscan]
-            simp only [Option.bind_some, scan_cons, scan_nil]
-            by_cases h1 : y.type = ev_LOOP_START
-            · exact ⟨dn + 1, by rw [if_pos h1, hdep]; rfl, by rw [if_pos h1]⟩
-            · by_cases h2 : y.type = ev_LOOP_END
-              · have hd0 : dn ≠ 0 := by
-                  intro h0
-                  apply hnb
-                  exact ⟨Or.inl h2, by rw [hdep, h0]; rfl⟩
-                refine ⟨dn - 1, ?_, by rw [if_neg h1, if_pos h2, if_neg hd0]⟩
-                rw [if_neg h1, if_pos h2, hdep]
-                omega
-              · by_cases h3 : y.type = ev_LOOP_BREAK
-                · have hd0 : dn ≠ 0 := by
-                    intro h0
-                    apply hnb
-                    exact ⟨Or.inr h3, by rw [hdep, h0]; rfl⟩
-                  exact ⟨dn, by rw [if_neg h1, if_neg h2, hdep], by rw [if_neg h1, if_neg h2, if_pos h3, if_neg hd0]⟩
-                · exact ⟨dn, by rw [if_neg h1, if_neg h2, hdep], by rw [if_neg h1, if_neg h2, if_neg h3]⟩
-          rw [hdn'] at hr
-          split at hr
-          · rename_i hd0
-            have hz : dn' = 0 := by omega
-            subst hz
-            generalize (if u + sa.baseUsage ≥ maxLoopStack then false else track) = tr at hr
-            refine ih _ _ _ _ _ _ (j + 1) (j + 1) 0 (by omega) (by omega) (by omega) (Nat.le_refl _) rfl
-                hsame' hscan' hscan' ?_ ?_ r hr
-            · split <;> omega
-            · split
-              · have : de + 1 - dstStart = j + 1 := by omega
-                rw [this]; exact hscan'
-              · exact hlscan
-          · exact ih _ _ _ _ _ _ (j + 1) s dn' (by omega) (by omega) hsafe (by omega) rfl
-              hsame' hscan' hsafe0 hll hlscan r hr
-        · exact hstop r hr
-    · exact hstop r hr
+theorem wrap16_small {x : Int} (h0 : 0 ≤ x) (h1 : x < 32768) : wrap16 x = x := by
+  unfold wrap16; omega
 
-/-- **`find_match_length`, specification.**  A returned `(len, loopLen)` means: `len` events of
-`src` from `srcStart` and of `dst` from `dstStart` are pairwise `sameEvent` (equal up to the
-param of a `LOOP_BREAK`), none of them a `SEGNO` or `DRUM_MODE`; the `dst` segment never meets
-a `LOOP_END`/`LOOP_BREAK` at depth 0 and ends at depth 0; and so does its prefix of length
-`loopLen ≤ len`. -/
-theorem findMatchLength_spec {song : Song} {m : SAMap} {srcT srcStart dstT dstStart : Nat} {wl : Bool}
-    {len loopLen : Nat} (h : findMatchLength song m srcT srcStart dstT dstStart wl = .ok (len, loopLen)) :
-    ∃ src dst, song.track? srcT = some src ∧ song.track? dstT = some dst ∧
-      FMLSpec src dst srcStart dstStart len loopLen := by
-  unfold findMatchLength at h
-  split at h
-  · rename_i src dst hs hd
-    refine ⟨src, dst, hs, hd, ?_⟩
-    exact go_spec src dst _ srcStart dstStart _ _ _ _ _ _ _ 0 0 0 rfl rfl rfl (Nat.le_refl _) rfl
-      (fun i hi => absurd hi (Nat.not_lt_zero _)) rfl rfl (Nat.le_refl _) rfl _ h
-  · simp at h
+theorem foldedTrack_break {src : List Event} {p q L : Nat} (hpq : p < q) (hlen : q + L ≤ src.length)
+    (hbp : L % (q - p) ≠ 0) (hrep : L / (q - p) + 2 < 32768) :
+    foldedTrack src p q L =
+      src.take p ++ (lsEv :: (((src.drop p).take (q - p)).take (L % (q - p)) ++
+        lbEv :: ((src.drop p).take (q - p)).drop (L % (q - p)) ++ [leEv ((L / (q - p) : Nat) + 2)])) ++
+      src.drop (q + L) := by
+  have hsplit := split4 src p q L (Nat.le_of_lt hpq)
+  obtain ⟨pre, hpre⟩ : ∃ pre, pre = src.take p := ⟨_, rfl⟩
+  obtain ⟨A, hA⟩ : ∃ A, A = (src.drop p).take (q - p) := ⟨_, rfl⟩
+  obtain ⟨B, hB⟩ : ∃ B, B = (src.drop q).take L := ⟨_, rfl⟩
+  obtain ⟨post, hpost⟩ : ∃ post, post = src.drop (q + L) := ⟨_, rfl⟩
+  have lpre : pre.length = p := by rw [hpre, List.length_take]; omega
+  have lA : A.length = q - p := by rw [hA, List.length_take, List.length_drop]; omega
+  have lB : B.length = L := by rw [hB, List.length_take, List.length_drop]; omega
+  rw [← hpre, ← hA, ← hB, ← hpost] at hsplit
+  have hbl : L % (q - p) ≤ A.length := by rw [lA]; exact Nat.le_of_lt (Nat.mod_lt _ (by omega))
+  have := fold_lists pre A B post (L % (q - p)) hbl lsEv lbEv (leEv ((L / (q - p) : Nat) + 2))
+  simp only [lpre, lA, lB, ← hsplit] at this
+  have hq : p + (q - p) = q := by omega
+  rw [hq] at this
+  unfold foldedTrack
+  simp only [hbp, ne_eq, not_false_eq_true, if_true, hq]
+  rw [← hA, ← hpre, ← hpost, ← this]
+  have hw : wrap16 ((L / (q - p) + 1 + 1 : Nat) : Int) = ((L / (q - p) : Nat) : Int) + 2 := by
+    generalize L / (q - p) = r at hrep
+    rw [wrap16_small (by omega) (by omega)]; omega
+  rw [hw, hpost]
+
+theorem foldedTrack_nobreak {src : List Event} {p q L : Nat} (hpq : p < q) (hlen : q + L ≤ src.length)
+    (hbp : L % (q - p) = 0) (hrep : L / (q - p) + 2 < 32768) :
+    foldedTrack src p q L =
+      src.take p ++ (lsEv :: ((src.drop p).take (q - p) ++ [leEv ((L / (q - p) : Nat) + 1)])) ++
+      src.drop (q + L) := by
+  have hsplit := split4 src p q L (Nat.le_of_lt hpq)
+  obtain ⟨pre, hpre⟩ : ∃ pre, pre = src.take p := ⟨_, rfl⟩
+  obtain ⟨A, hA⟩ : ∃ A, A = (src.drop p).take (q - p) := ⟨_, rfl⟩
+  obtain ⟨B, hB⟩ : ∃ B, B = (src.drop q).take L := ⟨_, rfl⟩
+  obtain ⟨post, hpost⟩ : ∃ post, post = src.drop (q + L) := ⟨_, rfl⟩
+  have lpre : pre.length = p := by rw [hpre, List.length_take]; omega
+  have lA : A.length = q - p := by rw [hA, List.length_take, List.length_drop]; omega
+  have lB : B.length = L := by rw [hB, List.length_take, List.length_drop]; omega
+  rw [← hpre, ← hA, ← hB, ← hpost] at hsplit
+  have := fold0_lists pre A B post lsEv (leEv ((L / (q - p) : Nat) + 1))
+  simp only [lpre, lA, lB, ← hsplit] at this
+  have hq : p + (q - p) = q := by omega
+  rw [hq] at this
+  unfold foldedTrack
+  simp only [hbp, ne_eq, not_true_eq_false, if_false, hq]
+  rw [← hA, ← hpre, ← hpost, ← this]
+  have hw : wrap16 ((L / (q - p) + 1 : Nat) : Int) = ((L / (q - p) : Nat) : Int) + 1 := by
+    generalize L / (q - p) = r at hrep
+    rw [wrap16_small (by omega) (by omega)]; omega
+  rw [hw, hpost]
 
 end Ctrmml.OptSteps
